@@ -13,9 +13,10 @@ p=f'/verif/seeded/{sys.argv[1]}/meta.json'
 m=json.load(open(p)); m.setdefault('applies_to_repo_commit',sys.argv[2]); m['run_checks']=sorted(set([sys.argv[3]]+sys.argv[4:])); json.dump(m,open(p,'w'),indent=1,ensure_ascii=False)
 PY
 # the checks run against the change applied to the CURRENT /repo HEAD (the sub-agent's worktree may be older than later fixes)
+export SENS_DIR="${SENS_DIR:-/tmp/sens2}"
 "$DIR/scripts/sensitivity.sh" seeded "$ID" > /tmp/sens_$ID.out 2>&1
 for C in "$P" "$@"; do
-  F="/tmp/sens/$ID-$C.out"; [ -f "$F" ] || F="/tmp/sens/$ID(ported)-$C.out"
+  F="$SENS_DIR/$ID-$C.out"; [ -f "$F" ] || F="$SENS_DIR/$ID(ported)-$C.out"
   if [ ! -f "$F" ]; then echo "no result for $ID $C (patch does not apply to HEAD? see /tmp/sens_$ID.out)"; continue; fi
   "$DIR/scripts/record_seeded.py" "$ID" "$C" "$F" "$NEEDS"
   grep -m2 "class=" "$F" | cut -c1-200
